@@ -3,7 +3,7 @@ From Coq Require Import List NArith ZArith Arith Bool.
 Import ListNotations.
 From Chiri Require Import Base.Bytes Base.Res Model.Tokenizer Model.TreeParser Model.Markers Model.Clean
      Spec.Ranges Spec.Extents Spec.Rename Spec.Simulation Proofs.C04Proofs Proofs.C05Proofs Proofs.CollectProofs Proofs.CleanProofs
-     Proofs.RenameProofs Proofs.SimStrings Proofs.WellNested Proofs.DocMask Proofs.AstCollect Proofs.Idempotent Proofs.CliProofs Proofs.Compose.
+     Proofs.RenameProofs Proofs.SimStrings Proofs.WellNested Proofs.DocMask Proofs.AstCollect Proofs.Idempotent Proofs.CliProofs Proofs.Compose Proofs.SimFlat Proofs.IdempotentUnwrap.
 Local Open Scope Z_scope.
 
 (** The full statements (kept visible; NOT proved in full):
@@ -21,12 +21,12 @@ Definition C19_composition_statement : Prop :=
     clean (with_now cfg now2) ds de s = Ok out2 ->
     nonws out12 = nonws out2.
 (** As stated (for EVERY well-formed source) idempotence is not what the property claims: its domain is
-    sources in which delimiter strings occur only as parts of tags, generated from ASTs.  Proved below
-    for AST documents without unwrap-block elements (idempotence and composition over
-    growing readiness).  NOT proved: documents with
-    unwrap-block elements (there the re-tokenisation argument needs, in addition, that wrapper lines
-    carry no tags and that an element that could not be unwrapped still cannot be after its children
-    are gone); these are validated by the history runs of this check (chains of 1..4 configurations). *)
+    sources in which delimiter strings occur only as parts of tags, generated from ASTs.  Proved below:
+    idempotence for AST documents without unwrap-block elements and, in the strict domain of the
+    generators (no tags on wrapper lines, single-line tags), with unwrap-block elements; composition
+    over growing readiness for AST documents without unwrap-block elements.  NOT proved: composition
+    for documents with unwrap-block elements (validated by the history runs of this check: chains of
+    1..4 configurations). *)
 
 (** PROVED (Proofs/Idempotent.v): idempotence for every document that is the rendering of an
     abstract syntax tree (texts, comment tags, properly nested elements: Proofs/WellNested.v) in which
@@ -66,6 +66,42 @@ Example C19_idempotent_example :
   clean ac_cfg id_ds id_de (render id_ds id_de (doc_of id_ast)) = Ok id_out /\
   clean ac_cfg id_ds id_de id_out = Ok id_out.
 Proof. split; [exact id_first | exact id_second]. Qed.
+
+(** PROVED (Proofs/IdempotentUnwrap.v): idempotence WITH unwrap-block elements, in the strict domain
+    of the generated documents: (S1) the wrapper lines of an unwrap-block carry no tags - its children
+    are one text, or a first and a last text with at least two line breaks each around anything;
+    (S2) no tag body contains a line break; and the end delimiter does not begin with a blank (KF2).
+    The output is again the rendering of a tree; its elements are the input's elements whose tags were
+    kept, each of them "settled": not ready, or a ready unwrap-block with at most two line breaks
+    between its tags, which cannot be unwrapped whatever surrounds it - also after the run. *)
+Theorem C19_idempotent_with_unwrap_blocks :
+  forall cfg ds de f out,
+    good_delims ds de -> de_nb de -> good_doc ds de (doc_of f) -> bodies_ok (doc_of f) ->
+    Forall ast_ok f -> strict f ->
+    clean cfg ds de (render ds de (doc_of f)) = Ok out ->
+    clean cfg ds de out = Ok out.
+Proof. exact clean_idempotent_strict. Qed.
+Print Assumptions C19_idempotent_with_unwrap_blocks.
+
+Theorem C19_output_tree_with_unwrap_blocks :
+  forall cfg ds de f out,
+    good_delims ds de -> de_nb de -> good_doc ds de (doc_of f) -> bodies_ok (doc_of f) ->
+    Forall ast_ok f -> strict f ->
+    clean cfg ds de (render ds de (doc_of f)) = Ok out ->
+    exists f2, out = render ds de (doc_of f2) /\ Forall ast_ok f2 /\
+      good_doc ds de (doc_of f2) /\ bodies_ok (doc_of f2) /\ settled cfg f2 /\
+      map node_bodies (ast_nodes 0 f2) =
+      map node_bodies (filter (fun n => negb (tdel cfg f (node_open n))) (ast_nodes 0 f)).
+Proof. exact clean_output_ast_strict. Qed.
+Print Assumptions C19_output_tree_with_unwrap_blocks.
+
+(** Non-vacuity: a ready unwrap-block containing a ready default element and a pending one, followed
+    by a ready unwrap-block with a one-line body (not removable): first run computed, second run
+    the identity. *)
+Example C19_unwrap_example :
+  clean ac_cfg id_ds id_de (render id_ds id_de (doc_of ux_ast)) = Ok ux_out /\
+  clean ac_cfg id_ds id_de ux_out = Ok ux_out /\ strict ux_ast.
+Proof. split; [exact ux_first | split; [exact ux_second | exact ux_strict]]. Qed.
 
 (** PROVED (Proofs/Compose.v), same documents: composition over growing readiness.  Cleaning step by
     step and cleaning once with the final configuration give the same text up to whitespace - in
